@@ -23,7 +23,7 @@ G4SA  == << <<0, 0, 0, 1, 0, 0, 0, 2, 0, 1, 0, 2, 0, 1, 1, 4>>, <<0, 1, 1, 2, -1
 GamesSeq == IF N = 3 THEN (IF GameSet = "SA" THEN G3SA ELSE G3SAM) ELSE G4SA
 GameAt(d) == Arr(GamesSeq[((d - 1) % Len(GamesSeq)) + 1])
 
-BudgetsAll == {-1, 1, 2}
+BudgetsAll == {-1, 0, 1, 2}
 BudgetsNone == {-1}
 
 VARIABLES cfg, env, draws, chosen, resets, ops, last
